@@ -6,7 +6,7 @@ _VERIF = _os.path.dirname(_os.path.dirname(_os.path.dirname(_os.path.abspath(__f
 _AB = {
     "pkg": ".", "hdir": "dastard", "harness": DASTARD_COMMON + ["zz_verif_c16_test.go"], "test": "TestVerifC16",
     "engines": ["vexp"],
-    "quick": T(16, 60), "thorough": T(16, 480),
+    "quick": T(16, 150), "thorough": T(16, 480),
 }
 # part 1: (c) kill at every crash point of saveState, recovery by the real setupViper; package main of cmd/dastard
 _C = {
